@@ -49,9 +49,9 @@ func c04Menu() []sim.TxSpec {
 
 type c04Case struct {
 	EVMProg []int `json:"evmProg,omitempty"` // EVM-interplay case: a C17 program run in C17's family 2, judged for nonces only
-	Seq []int `json:"seq"`
-	Cut int   `json:"cut"` // bit i set = new block after element i
-	Lv  int   `json:"lv"`
+	Seq     []int `json:"seq"`
+	Cut     int   `json:"cut"` // bit i set = new block after element i
+	Lv      int   `json:"lv"`
 }
 
 type c04 struct {
